@@ -3,10 +3,10 @@ CONSTANTS
  Names = {"a"}
  Keys = {"k"}
  Vals = {1}
- MaxElems = 6
+ MaxElems = 7
  MaxNodes = 3
  MaxRemoves = 1
- MaxSteps = 7
+ MaxSteps = 8
 VIEW ViewG
 INVARIANT EmitG
 INVARIANT Inv
